@@ -1467,7 +1467,10 @@ impl Value {
         let keys = self.meta.take_map_keys();
         let other_keys = other.meta.take_map_keys();
         let mut result = f(self, other)?;
-        if let Some(keys) = keys.xor(other_keys) {
+        // The other value may have given the result more rows than there are keys
+        if let Some(keys) = keys.xor(other_keys)
+            && keys.fits_row_count(result.row_count())
+        {
             result.meta.map_keys = Some(keys);
         }
         Ok(result)
